@@ -113,6 +113,35 @@ class Driver:
             raise Crash(line, rc, self._readlog())
         return self._read_answer(line, timeout)
 
+    def rss_kb(self):
+        try:
+            with open('/proc/%d/statm' % self.p.pid) as f:
+                return int(f.read().split()[1]) * 4
+        except Exception:
+            return 0
+
+    def recycle_if_big(self, limit_kb=1200000):
+        """restart the driver process when it has grown (the libraries leak by design, and ASan's quarantine adds to it):
+        sixteen of them once exhausted the machine and the kernel's OOM killer produced spurious SIGKILLs"""
+        if self.p is not None and self.rss_kb() > limit_kb:
+            self.close_proc()
+            return True
+        return False
+
+    def close_proc(self):
+        if self.p is not None:
+            try:
+                self.p.stdin.write(b'quit\n')
+                self.p.stdin.flush()
+                self.p.wait(timeout=5)
+            except Exception:
+                self.kill()
+            self.p = None
+        try:
+            self.r.close()
+        except Exception:
+            pass
+
     def kill(self):
         if self.p is not None:
             try:
